@@ -438,6 +438,12 @@ func (fc *funcContext) translateExpr(expr ast.Expr) *expression {
 					return fc.fixNumber(fc.formatParenExpr("%e >> $min(%f, 31)", e.X, e.Y), basic)
 				}
 				y := fc.newLocalVariable("y")
+				if _, isIdent := astutil.RemoveParens(e.X).(*ast.Ident); !isIdent && fc.pkgCtx.Types[e.X].Value == nil {
+					// The left operand must be evaluated (it may panic or have side
+					// effects) even when the count makes the result independent of it.
+					x := fc.newLocalVariable("x")
+					return fc.fixNumber(fc.formatExpr("(%s = %e, %s = %f, %s < 32 ? (%s %s %s) : 0)", x, e.X, y, e.Y, y, x, op, y), basic)
+				}
 				return fc.fixNumber(fc.formatExpr("(%s = %f, %s < 32 ? (%e %s %s) : 0)", y, e.Y, y, e.X, op, y), basic)
 			case token.AND, token.OR:
 				if isUnsigned(basic) {
